@@ -186,6 +186,11 @@ reg("C36", "io", "before/after row comparison over the real migration chain from
     "Databases created at each of the historical schema versions by redun's own migrate() are populated through "
     "schema reflection, upgraded to latest, compared on shared columns (multiset inclusion, timestamps as instants), "
     "loaded by the library and used for a recording and a replaying run.", "SQLite only, TZ=UTC.")
+reg("C38", "wf+ctl", "differential monitor on real sub-schedulers with database and cache-lookup observation",
+    "Generated sub-workflows run through subrun() on the unmodified local executors with new_execution, cache, "
+    "cache_scope and check_valid varied over repeated executions on one file database; outcomes are compared with the "
+    "reference interpreter, job ancestry / execution ids are read from the database, and check_cache is wrapped to "
+    "see which cache result kind is used for the subrun task.", "Local executors; shared SQLite file via forwarded config.")
 
 
 def build():
